@@ -260,7 +260,7 @@ def random_kp(rng, nb=None, degree=None, convention=None, box=None, trig=None, d
     if nb is None:
         nb = int(rng.integers(1, 5))
     if degree is None:
-        degree = int(rng.integers(1, 4))
+        degree = int(rng.choice([1, 2, 3], p=[0.15, 0.25, 0.6]))
     if convention is None:
         convention = ["cart", "red"][int(rng.integers(2))]
     if box is None:
